@@ -15,8 +15,10 @@ from typing import Any, Callable, Iterable
 
 ROOT = Path(__file__).resolve().parent.parent
 REPO = Path(os.environ.get("VERIF_REPO", "/repo"))
-EVIDENCE_DIR = ROOT / "evidence"
-REPLAY_DIR = ROOT / "replay"
+# VERIF_SCRATCH redirects evidence and replay files (used by tools/seedtest.sh so that a run against a seeded copy
+# of the repository does not overwrite the evidence of the real tree)
+EVIDENCE_DIR = Path(os.environ["VERIF_SCRATCH"]) / "evidence" if os.environ.get("VERIF_SCRATCH") else ROOT / "evidence"
+REPLAY_DIR = Path(os.environ["VERIF_SCRATCH"]) / "replay" if os.environ.get("VERIF_SCRATCH") else ROOT / "replay"
 KNOWN_FINDINGS = ROOT / "known_findings.json"
 
 EXIT_OK = 0
